@@ -195,6 +195,14 @@ static inline std::string rand_ofmt(Rng &r, int kind, bool zone, bool time_field
 	size_t n = (size_t)r.range(1, 6);
 	if (r.chance(1, 12))
 		n = (size_t)r.range(12, 40);	/* long outputs into the shared buffer */
+	else if (r.chance(1, 9)) {
+		/* the field that follows starts within a few bytes of the end of the 256-byte output buffer, and its
+		 * width depends on the value (names, unpadded numbers) */
+		static const char *wide[] = {"%A", "%B", "%A", "%B", "%a", "%b", "%s", "%-d", "%-m", "%Od", "%Om", "%F", "%dth", "%A, %B"};
+		f = std::string((size_t)r.range(240, 256), "x-_ "[r.below(4)]);
+		f += kind == K_TIME ? "%-H" : wide[r.below(sizeof(wide) / sizeof(*wide))];
+		n = (size_t)r.range(0, 2);
+	}
 	for (size_t i = 0; i < n; i++) {
 		unsigned k = (unsigned)r.below(100);
 		bool wantt = time_fields_only || (kind == K_TIME ? k < 80 : kind == K_DT ? k < 40 : k < 6);
